@@ -14,6 +14,7 @@ import (
 	"verifsim/internal/comp"
 	"verifsim/internal/env"
 	"verifsim/internal/model"
+	"verifsim/internal/rng"
 	"verifsim/internal/trace"
 )
 
@@ -147,6 +148,50 @@ type Replay struct {
 	History *HistReplay `json:"history,omitempty"`
 	// fault
 	Fault *FaultReplay `json:"fault,omitempty"`
+
+	// Worker is the position of the run inside its worker process: the runs the same process
+	// executed before it are From, From+Stride, ... - needed only when a failure depends on
+	// state the tree keeps across compilations (replay falls back to re-executing them).
+	Worker *WorkerPos `json:"worker,omitempty"`
+}
+
+// WorkerPos locates a run in the deterministic sequence of its worker process.
+type WorkerPos struct {
+	Tier    string `json:"tier"`
+	From    uint64 `json:"from"`
+	Stride  uint64 `json:"stride"`
+	Run     uint64 `json:"run_index"`
+	MaxFail int    `json:"max_fail"`
+}
+
+// curWorker / curRun are set by the worker loops (one run at a time per process).
+var (
+	curWorker *Params
+	curRun    uint64
+)
+
+func beginRun(pm *Params, i uint64) { curWorker, curRun = pm, i }
+
+// HistoryReplay re-executes the run of r together with every run its worker process executed
+// before it, in a fresh process, and reports whether the same oracle fails for the same run.
+func HistoryReplay(r *Replay, self string, worker func(*Params) (*Stats, []*Failure)) (string, string) {
+	if r.Worker == nil || r.Worker.Stride == 0 {
+		return "", ""
+	}
+	dir, err := os.MkdirTemp("", "verifsim-history-replay")
+	if err != nil {
+		return "", ""
+	}
+	defer os.RemoveAll(dir)
+	pm := &Params{Property: r.Property, Tier: r.Worker.Tier, VerifSeed: r.VerifSeed, From: r.Worker.From, Stride: r.Worker.Stride, Count: r.Worker.Run + 1,
+		ReplayDir: dir, MaxFail: r.Worker.MaxFail, Thorough: r.Worker.Tier == "thorough", SelfExe: self}
+	_, fails := worker(pm)
+	for _, f := range fails {
+		if f.Replay != nil && f.Replay.RunSeed == r.RunSeed && f.Oracle == r.Oracle {
+			return f.Oracle, f.Detail + fmt.Sprintf(" (reproduced together with the %d runs the same worker process executed before it)", (r.Worker.Run-r.Worker.From)/r.Worker.Stride)
+		}
+	}
+	return "", ""
 }
 
 // Failure is one violation found by a worker.
@@ -161,6 +206,9 @@ type Failure struct {
 
 // WriteReplay stores the replay file and returns its path.
 func WriteReplay(dir string, r *Replay) (string, error) {
+	if curWorker != nil && r.Worker == nil {
+		r.Worker = &WorkerPos{Tier: curWorker.Tier, From: curWorker.From, Stride: curWorker.Stride, Run: curRun, MaxFail: curWorker.MaxFail}
+	}
 	if err := os.MkdirAll(dir, 0o755); err != nil {
 		return "", err
 	}
@@ -181,6 +229,7 @@ func ReadReplay(path string) (*Replay, error) {
 	if err := json.Unmarshal(b, &r); err != nil {
 		return nil, err
 	}
+	comp.SchedSeed = rng.Sub(r.RunSeed, "sched") // same seeded yields as in the recorded run
 	return &r, nil
 }
 
